@@ -270,14 +270,17 @@ class Parser:
             return None
         j = self.i + 1
         words = []
-        while j < len(self.t) and (self.t[j] in TYPE_WORDS or self.t[j] == "::" or (re.match(r"[A-Z]\w*$", self.t[j]) and words)):
+        upper_first = False
+        while j < len(self.t) and (self.t[j] in TYPE_WORDS or self.t[j] == "::" or re.match(r"[A-Z]\w*$", self.t[j])):
+            if not words and self.t[j] not in TYPE_WORDS:
+                upper_first = True
             words.append(self.t[j])
             j += 1
         stars = ""
         while j < len(self.t) and self.t[j] in ("*", "&"):
             stars += self.t[j]
             j += 1
-        if not words or j >= len(self.t) or self.t[j] != ")":
+        if not words or j >= len(self.t) or self.t[j] != ")" or (upper_first and not stars):
             return None
         nxt = self.t[j + 1] if j + 1 < len(self.t) else None
         if nxt is None or not (re.match(r"[A-Za-z_0-9]", nxt) or nxt in ("(", "*", "&", "-", "!", "~")):
@@ -826,6 +829,9 @@ class Tr:
                 return f"P.sysRecv {s} {n}"
         return None
 
+    def bind_arg(self, a, env):
+        return None
+
     def helper_of(self, call, env):
         """(name, args without the client argument, client parameter index or None) when `call` is a call of a known helper"""
         if call[0] != "call":
@@ -899,6 +905,10 @@ class Tr:
         for i, (p_, a) in enumerate(zip(pn, args)):
             if i == selfidx:
                 added_self = p_
+                continue
+            b = self.bind_arg(a, env)
+            if b is not None:
+                locs[p_] = b
                 continue
             t, ty = self.tx(a, env)
             if ty not in ("int", "zero", "dptr", "bool", "pf", "nf"):
@@ -1064,9 +1074,11 @@ class GTr(Tr):
                     return "@" + ty[4:]
                 if ty.startswith("iter:"):
                     return "%" + ty[5:]
-                if ty == "struct":
-                    return "$" + ty
+                if ty.startswith("struct:"):
+                    return "$" + ty[7:]
                 return None
+            if n in EVENT_NAMES:
+                return "@event"
             if n in self.params and self.params[n][0] == "key":
                 return self.params[n][1]
             if n in self.params:
@@ -1091,7 +1103,7 @@ class GTr(Tr):
 
     def argtok(self, a, env):
         t = self.token(a, env)
-        if t is not None and (t in self.T.get("argtokens", ()) or (t[0] in "@%&" and "." not in t)):
+        if t is not None and (t in self.T.get("argtokens", ()) or (t[0] in "@%&*$" and "." not in t)):
             return t
         return "_"
 
@@ -1104,8 +1116,9 @@ class GTr(Tr):
             i = 0
             for a in e[2]:
                 if self.argtok(a, env) == "_":
-                    t, ty = self.tx(a, env)
-                    vals[f"a{i}"] = self.as_ty(t, ty, "int") if ty == "zero" else t
+                    if ("{a%d}" % i) in tmpl:
+                        t, ty = self.tx(a, env)
+                        vals[f"a{i}"] = self.as_ty(t, ty, "int") if ty == "zero" else t
                     i += 1
         return tmpl.format(**vals)
 
@@ -1132,7 +1145,7 @@ class GTr(Tr):
                 if key in self.T.get("pure", {}):
                     tmpl, ty = self.T["pure"][key]
                     return (self.fill(tmpl, e, env), ty)
-                if k != "un":
+                if k not in ("un", "name"):
                     self.refuse(f"unknown expression `{key}`")
         if k == "bin" and e[1] in ("==", "!="):
             for a, b in ((e[2], e[3]), (e[3], e[2])):
@@ -1143,6 +1156,63 @@ class GTr(Tr):
                         return (v if e[1] == "!=" else f"(!{v})", "bool")
                     self.refuse("an iterator is compared with something that is not the end of its table")
         return super().tx(e, env)
+
+    def has_boolcall(self, e, env):
+        if not isinstance(e, tuple):
+            return False
+        if e[0] == "call" and self.token(e, env) in self.T.get("boolcalls", {}):
+            return True
+        if e[0] == "call" and self.helpers and self.helper_of(e, env) is not None:
+            return True
+        if e[0] in ("bin", "un", "tern", "cast"):
+            return any(self.has_boolcall(x, env) for x in e[1:] if isinstance(x, tuple))
+        return False
+
+    def cond(self, e, env, kt, kf):
+        """`if (e)` with short-circuit evaluation when `e` contains calls with effects"""
+        if e[0] == "bin" and e[1] == "||":
+            return self.cond(e[2], env, kt, lambda e2: self.cond(e[3], e2, kt, kf))
+        if e[0] == "bin" and e[1] == "&&":
+            return self.cond(e[2], env, lambda e2: self.cond(e[3], e2, kt, kf), kf)
+        if e[0] == "un" and e[1] == "!":
+            return self.cond(e[2], env, kf, kt)
+        if e[0] == "call" and self.token(e, env) in self.T.get("boolcalls", {}):
+            r, s2 = self.fresh("r"), self.fresh("s")
+            text = self.fill(self.T["boolcalls"][self.token(e, env)], e, env)
+            env2 = env.copy()
+            env2.state = s2
+            return self.let(r, text, self.let(s2, f"{r}.1", f"(if {r}.2 then {kt(env2.copy())}\n else {kf(env2.copy())})"))
+        if e[0] == "call" and self.helpers and self.helper_of(e, env) is not None:
+            # a helper function that returns a boolean and may make calls with effects (`configureClientSocket(socket)`)
+            def on_value(back, v):
+                if v is None:
+                    self.refuse("the value of a void helper function is used as a condition")
+                return f"(if {self.as_bool(*v)} then {kt(back.copy())}\n else {kf(back.copy())})"
+            return self.inline(e, env, on_value)
+        if self.has_boolcall(e, env):
+            self.refuse("a call with effects inside an expression that is not a plain && / || / ! condition")
+        c, tc = self.tx(e, env)
+        return f"(if {self.as_bool(c, tc)} then {kt(env.copy())}\n else {kf(env.copy())})"
+
+    def seq(self, stmts, env, K):
+        if stmts and stmts[0][0] == "return" and stmts[0][1] is not None and self.T.get("boolcalls") and self.has_boolcall(stmts[0][1], env):
+            return self.cond(stmts[0][1], env, lambda e2: K["ret"](e2, ("true", "bool")), lambda e2: K["ret"](e2, ("false", "bool")))
+        if stmts and stmts[0][0] == "if" and self.T.get("boolcalls") and self.has_boolcall(stmts[0][1], env):
+            st, rest = stmts[0], stmts[1:]
+            Kr = dict(K)
+            Kr["next"] = lambda e2: self.seq(rest, e2, K)
+            return self.cond(st[1], env, lambda e2: self.seq([st[2]], e2, Kr),
+                             lambda e2: self.seq([st[3]] if st[3] is not None else [], e2, Kr))
+        return super().seq(stmts, env, K)
+
+    def bind_arg(self, a, env):
+        key = self.token(a, env)
+        b = self.T.get("binders", {}).get(key)
+        if b is not None and b[0] is None and b[1] is None and b[2].startswith("reg:"):
+            return (env.state, b[2])
+        if a[0] == "name" and a[1] in env.locs and env.locs[a[1]][1].startswith(("reg:", "struct:")):
+            return env.locs[a[1]]
+        return None
 
     def as_bool(self, t, ty):
         if ty.startswith("reg:") and ty[4:] in self.T.get("regbool", {}):
@@ -1155,7 +1225,7 @@ class GTr(Tr):
             env.shadowed = getattr(env, "shadowed", set()) | {var}
         if init is None:
             if tname in self.T.get("structs", ()):
-                env.locs[var] = (var, "struct")
+                env.locs[var] = (var, "struct:" + tname)
                 return self.seq(rest, env, K)
             return super().decl(st, rest, env, K)
         key = self.token(init, env)
@@ -1209,6 +1279,8 @@ class GTr(Tr):
                 else:
                     self.refuse(f"`{op}` on `{key}`")
                 return then(st_.format(s=s, v=val))
+            if key is not None and op == "=" and rhs[0] == "call" and (key, self.token(rhs, env)) in self.T.get("assign_call", {}):
+                return then(self.fill(self.T["assign_call"][(key, self.token(rhs, env))], rhs, env))
             if key is not None and key in self.T.get("ignored_assign", {}):
                 want = self.T["ignored_assign"][key]
                 if want is not None and self.token(rhs, env) != want:
@@ -1216,7 +1288,7 @@ class GTr(Tr):
                     if want != "int" or ty not in ("int", "zero"):
                         self.refuse(f"`{key}` is assigned something else than `{want}`")
                 return self.seq(rest, env, K)
-            if key is not None and key.startswith("$struct."):
+            if key is not None and key.startswith("$epoll_event."):
                 # a field of a local struct (`ev.events = …`): a local of its own
                 t, ty = self.tx(rhs, env)
                 v = self.fresh("f")
@@ -1241,7 +1313,7 @@ class GTr(Tr):
                 and len(a[2][2]) == 4 and a[2][2][1][0] == "num"):
             self.refuse("VERIFY of something that is not `epoll_ctl(fd, op, s, &ev) == 0`")
         opn = a[2][2][1][1]
-        ev = env.locs.get("$struct.events")
+        ev = env.locs.get("$epoll_event.events")
         mask = ev[0] if ev and ev[1] == "nf" else "({} : NBits)"
         if opn != 2 and not ev:
             self.refuse("epoll_ctl with an event mask that was not set")
@@ -1258,7 +1330,7 @@ POLL_TABLES = {
               "@selref": ("(P.selEvents {s})", "P.setSelEvents {s} {v}", "pf"),
               "*%sel": ("(P.selEvents {s})", "P.setSelEvents {s} {v}", "pf"),
               "@sock.s": ("(P.sockFd {s})", "{s}", "int")},
-    "ignored_assign": {"@sock.socket": "&&socket", "$struct.data.ptr": "&@sock"},
+    "ignored_assign": {"@sock.socket": "&&socket", "$epoll_event.data.ptr": "&@sock"},
     "binders": {"sockets.find(&&socket)": (None, "(P.sockFind {s})", "iter:sock"),
                 "selectedSockets.find(@sock.socket)": (None, "(P.selFind {s})", "iter:sel"),
                 "selectedSockets.find(&&socket)": (None, "(P.selFind {s})", "iter:sel"),
@@ -1283,6 +1355,48 @@ CLOSING_TABLES = {
     "effect": {"_closingClients.removeFront()": "P.closingRemoveFront {s}", "@client._callback.onClosed()": "P.onClosed {s}",
                "deleteClient(@client)": "P.deleteClient {s}"},
 }
+
+
+OPT_PURE = {"_keepAlive": ("(P.optKeepAlive {s})", "bool"), "_noDelay": ("(P.optNoDelay {s})", "bool"),
+            "_sendBufferSize": ("(P.optSendBuf {s})", "int"), "_receiveBufferSize": ("(P.optRecvBuf {s})", "int"),
+            "@client._callback": ("(P.hasCallback {s})", "bool"), "@client._removed": ("(P.removedFlag {s})", "bool")}
+
+
+def opt_calls(sock):
+    return {f"{sock}.setNonBlocking()": "P.setNonBlocking {s}", f"{sock}.setKeepAlive()": "P.setOption {s} 0",
+            f"{sock}.setNoDelay()": "P.setOption {s} 1", f"{sock}.setSendBufferSize(_)": "P.setOption {s} 2",
+            f"{sock}.setReceiveBufferSize(_)": "P.setOption {s} 3"}
+
+
+ACCEPT_TABLES = {
+    "structs": ("Socket",), "argtokens": ("*this", "$Socket", "*&@client"),
+    "pure": dict(OPT_PURE),
+    "boolcalls": dict(opt_calls("$Socket"), **{"@listener.accept($Socket,_,_)": "P.accept {s}"}),
+    "binders": {"*@event.socket": (None, None, "reg:listener"), "_clients.append(*this)": ("P.newClient {s}", None, "reg:client")},
+    "effect": {"@client.swap($Socket)": "P.swapSocket {s}", "_sockets.set(@client,_)": "P.pollSetClient {s} {a0}",
+               "deleteClient(@client)": "P.deleteClient {s}"},
+    "assign_call": {("@client._callback", "@listener.callback.onAccepted(*&@client,_,_)"): "P.handOver {s}"},
+}
+CONNECT_TABLES = {
+    "argtokens": ("*this", "*&@client"),
+    "pure": dict(OPT_PURE),
+    "boolcalls": opt_calls("@est"),
+    "binders": {"*@event.socket": (None, None, "reg:est"), "_clients.append(*this)": ("P.newClient {s}", None, "reg:client"),
+                "@est.getAndResetErrorStatus()": (None, "(P.soError {s})", "int")},
+    "effect": {"@client.swap(@est)": "P.swapSocket {s}", "_sockets.set(@client,_)": "P.pollSetClient {s} {a0}",
+               "_sockets.remove(@est)": "P.pollRemoveEst {s}", "deleteClient(@client)": "P.deleteClient {s}",
+               "@est.callback.onAbolished()": "P.onAbolished {s}", "Error::setLastError(_)": "{s}"},
+    "assign_call": {("@client._callback", "@est.callback.onConnected(*&@client)"): "P.handOver {s}"},
+}
+
+
+def tr_handover_branch(fn, body, tables):
+    t = GTr(fn, tables, {})
+    body = re.sub(r"\.\s*append\s*<[^<>;()]*>\s*\(", ".append(", body)
+    for h in HELPERS_PRIVATE.values():
+        h["body"] = re.sub(r"\.\s*append\s*<[^<>;()]*>\s*\(", ".append(", h["body"])
+    K = {"next": lambda e: e.state, "cont": lambda e: e.state, "ret": lambda e, v: t.refuse("return inside the branch")}
+    return t.seq(parse_body(body, fn), Env(), K)
 
 
 def tr_poll_fn(fn, params, body, nparams):
@@ -1625,6 +1739,21 @@ def generate(repo, out_path):
         raise Refuse("run(): code between the timer loop and the closing loop")
     text, _ = loop_iteration("run(): closing loop", after_now[a1:], "while", CLOSING_TABLES, {})
     defs.append(("closingIter", "{σ : Type} (P : ClosingPrims σ) (s0 : σ) : σ × Bool", text))
+    for want in ("acceptFlag", "connectFlag"):
+        if want not in bodies:
+            raise Refuse(f"run(): no branch for {want}")
+    hand = [("acceptBranch", "{σ : Type} (P : HandOverPrims σ) (s0 : σ) : σ", tr_handover_branch("run(): accept branch", bodies["acceptFlag"], ACCEPT_TABLES)),
+            ("connectBranch", "{σ : Type} (P : HandOverPrims σ) (s0 : σ) : σ", tr_handover_branch("run(): connect branch", bodies["connectFlag"], CONNECT_TABLES))]
+    hparts = ["/- generated by tools/gen_server.py from src/Socket/Server.cpp (after g++ -E): the accept and connect branches of the dispatch chain of run() - do not edit -/",
+              "import Nstd.Server.TrHand", "", "set_option linter.unusedVariables false", "",
+              "namespace Nstd.Generated.ServerTrHand", "open Nstd.Server.Tr", "open Nstd.Server.C14 (Flags)", ""]
+    for name, sig, text in hand:
+        hparts += [f"def {name} {sig} :=", " " + text, ""]
+    hparts += ["end Nstd.Generated.ServerTrHand", ""]
+    htext = "\n".join(hparts)
+    hpath = Path(out_path).parent / "ServerTrHand.lean"
+    if not hpath.exists() or hpath.read_text() != htext:
+        hpath.write_text(htext)
     parts = ["/- generated by tools/gen_server.py from src/Socket/Server.cpp and src/Socket/Socket.cpp (after g++ -E) - do not edit -/",
              "import Nstd.Server.TrRt", "", "set_option linter.unusedVariables false", "",
              "namespace Nstd.Generated.ServerTr", "open Nstd.Server.Tr", "open Nstd.Server.C14 (Flags)", ""]
@@ -1644,6 +1773,7 @@ def generate(repo, out_path):
     out_path.parent.mkdir(parents=True, exist_ok=True)
     if not out_path.exists() or out_path.read_text() != text:
         out_path.write_text(text)
+    defs = defs + hand
     return (f"{len(defs)} bodies translated ({', '.join(d[0] for d in defs)}); dispatch order {'/'.join(order)}; "
             f"flag values {pfv} {nfv}")
 
